@@ -64,6 +64,15 @@ M = [
  ('m-c19-maxconn', 'C19', [('src/ssh_audit/dheat.py', " and (num_attempted_connections < max_connections):", " and (num_attempted_connections < max_connections * 4):")], 'rate test attempts 4x the limit'),
  ('m-c19-concurrency', 'C19', [('src/ssh_audit/ssh_audit.py', "dh_rate_test_notes = DHEat.dh_rate_test(out, aconf, kex, 1.5, 38, 3)", "dh_rate_test_notes = DHEat.dh_rate_test(out, aconf, kex, 1.5, 38, 6)")], '6 concurrent sockets in the rate test'),
  ('m-c19-rate-when-skipped', 'C19', [('src/ssh_audit/ssh_audit.py', "                if aconf.skip_rate_test:", "                if aconf.skip_rate_test and aconf.policy is None:")], 'policy audits run the rate test although --skip-rate-test was given'),
+ # ---- synchronisation (round 12): the lock objects are simulator objects (simaudit/sync.py)
+ ('m-c08-lock-leak', 'C08', [('src/ssh_audit/ssh2_kexdb.py', "    @staticmethod\n    def get_db() ->", "    _LOCK = threading.Lock()\n\n    @staticmethod\n    def get_db() ->"),
+                              ('src/ssh_audit/ssh2_kexdb.py', "        if calling_thread_id not in SSH2_KexDB.DB_PER_THREAD:\n            SSH2_KexDB.DB_PER_THREAD[calling_thread_id] = copy.deepcopy(SSH2_KexDB.MASTER_DB)\n\n        return", "        SSH2_KexDB._LOCK.acquire()\n        if calling_thread_id not in SSH2_KexDB.DB_PER_THREAD:\n            SSH2_KexDB.DB_PER_THREAD[calling_thread_id] = copy.deepcopy(SSH2_KexDB.MASTER_DB)\n        SSH2_KexDB._LOCK.release()\n\n        return"),
+                              ('src/ssh_audit/ssh2_kexdb.py', "        if calling_thread_id in SSH2_KexDB.DB_PER_THREAD:\n            del SSH2_KexDB.DB_PER_THREAD[calling_thread_id]", "        SSH2_KexDB._LOCK.acquire()\n        if calling_thread_id not in SSH2_KexDB.DB_PER_THREAD:\n            return\n        del SSH2_KexDB.DB_PER_THREAD[calling_thread_id]\n        SSH2_KexDB._LOCK.release()")],
+  'the per-thread table is guarded by a lock that thread_exit() does not release when the worker never used the table (a target that failed before any rating): every later get_db() blocks for ever'),
+ ('eq-lock', ['C01','C02','C03','C04','C05','C06','C07','C08','C09','C10','C11','C12','C13','C14','C15','C16','C18','C19'], [('src/ssh_audit/ssh2_kexdb.py', "    @staticmethod\n    def get_db() ->", "    _LOCK = threading.RLock()\n\n    @staticmethod\n    def get_db() ->"),
+                     ('src/ssh_audit/ssh2_kexdb.py', "        if calling_thread_id not in SSH2_KexDB.DB_PER_THREAD:\n            SSH2_KexDB.DB_PER_THREAD[calling_thread_id] = copy.deepcopy(SSH2_KexDB.MASTER_DB)\n\n        return", "        with SSH2_KexDB._LOCK:\n            if calling_thread_id not in SSH2_KexDB.DB_PER_THREAD:\n                SSH2_KexDB.DB_PER_THREAD[calling_thread_id] = copy.deepcopy(SSH2_KexDB.MASTER_DB)\n\n        return"),
+                     ('src/ssh_audit/ssh2_kexdb.py', "        if calling_thread_id in SSH2_KexDB.DB_PER_THREAD:\n            del SSH2_KexDB.DB_PER_THREAD[calling_thread_id]", "        with SSH2_KexDB._LOCK:\n            if calling_thread_id in SSH2_KexDB.DB_PER_THREAD:\n                del SSH2_KexDB.DB_PER_THREAD[calling_thread_id]")],
+  'the per-thread table correctly guarded by a re-entrant lock'),
  # ---- property-preserving refactorings: every check must stay green on these
  ('eq-sendall', ['C01','C02','C03','C04','C05','C06','C07','C08','C09','C10','C11','C12','C13','C14','C15','C16','C18','C19'], [('src/ssh_audit/ssh_socket.py', "            while len(data) > 0:\n                sent = self.__sock.send(data)\n                if sent is None:  # A socket stand-in that reports no count has taken everything.\n                    break\n                data = data[sent:]\n            return 0, None", "            self.__sock.sendall(data)\n            return 0, None")], 'send loop -> sendall'),
  ('eq-create-connection', ['C01','C02','C03','C04','C05','C06','C07','C08','C09','C10','C11','C12','C13','C14','C15','C16','C18','C19'], [('src/ssh_audit/ssh_socket.py', "                s = socket.socket(af, socket.SOCK_STREAM)\n                s.settimeout(self.__timeout)\n", "                s = None\n"), ('src/ssh_audit/ssh_socket.py', "                s.connect(addr)\n                self.__sock = s", "                s = socket.create_connection((addr[0], addr[1]), self.__timeout)\n                self.__sock = s")], 'socket()+connect() -> socket.create_connection()'),
@@ -83,6 +92,7 @@ EQUIVALENT = {
  'm-c15-level-status': 'the added guard is always true',
  'm-c15-unsorted': 'the recommendation lines are generated in a deterministic order either way',
  'm-c15-warn-hidden': 'in batch mode -l warn then filters nothing: the statement only forbids adding or altering lines',
+ 'eq-lock': 'correct locking adds yield points, nothing else',
  'eq-sendall': 'refactoring', 'eq-create-connection': 'refactoring', 'eq-format-padding': 'presentation only', 'eq-recv-size': 'refactoring', 'eq-monotonic': 'refactoring',
 }
 
